@@ -489,6 +489,9 @@ func genAstWriteFacts() {
 	o.WriteString("-- deferred Close in a function AND in a callee that receives the same scope.\n")
 	emit(&o, "cellWriteFacts", cellw)
 	emit(&o, "doubleCloseFacts", doubleClose(p))
+	o.WriteString("-- getterFacts: what the Get* accessors that hand out a stored view (inline tables, temporary tables, cached\n")
+	o.WriteString("-- file views, stdin views) return; lhs = the returned expression, how = copy / delegated to another Get* / STORED.\n")
+	emit(&o, "getterFacts", getterFacts(p))
 	o.WriteString("end Csvq.Gen\n")
 	fmt.Print(o.String())
 }
@@ -615,6 +618,149 @@ func doubleClose(p *Pkg) []awfact {
 							out = append(out, awfact{file: p.base(c.Pos()), fn: funcLabel(fd), lhs: exprText(a) + "." + m, line: p.line(c.Pos()), how: "also closed by the callee " + exprText(c.Fun)})
 						}
 					}
+				}
+				return true
+			})
+		}
+	}
+	return out
+}
+
+// getterFacts: every function or method Get* of lib/query whose first result is *View.  A stored view must
+// leave its container as a copy (view.Copy(): own record set, own records), because evaluation filters,
+// sorts, projects and extends the records of the view it works on in place.  Each non-nil returned expression
+// is classified: "copy" (x.Copy(), or a local defined only by that), "delegated" (the result of another Get*
+// accessor), anything else "STORED".
+func getterFacts(p *Pkg) []awfact {
+	var out []awfact
+	isViewPtr := func(t types.Type) bool {
+		pt, ok := t.(*types.Pointer)
+		return ok && namedTypeName(pt.Elem()) == queryPkg+".View"
+	}
+	for _, f := range p.Files {
+		for _, d := range f.Decls {
+			fd, ok := d.(*ast.FuncDecl)
+			if !ok || fd.Body == nil || !strings.HasPrefix(fd.Name.Name, "Get") || fd.Type.Results == nil || len(fd.Type.Results.List) == 0 {
+				continue
+			}
+			tv, ok := p.Info.Types[fd.Type.Results.List[0].Type]
+			if !ok || !isViewPtr(tv.Type) {
+				continue
+			}
+			defs := map[types.Object][]ast.Expr{}
+			note := func(id *ast.Ident, rhs ast.Expr) {
+				o := p.Info.Defs[id]
+				if o == nil {
+					o = p.Info.Uses[id]
+				}
+				if o != nil {
+					defs[o] = append(defs[o], rhs)
+				}
+			}
+			ast.Inspect(fd.Body, func(n ast.Node) bool {
+				if as, ok := n.(*ast.AssignStmt); ok {
+					if len(as.Lhs) == len(as.Rhs) {
+						for i, l := range as.Lhs {
+							if id, ok := l.(*ast.Ident); ok {
+								note(id, as.Rhs[i])
+							}
+						}
+					} else if len(as.Rhs) == 1 { // v, err := f()
+						if id, ok := as.Lhs[0].(*ast.Ident); ok {
+							note(id, as.Rhs[0])
+						}
+					}
+				}
+				return true
+			})
+			var classify func(e ast.Expr, depth int) string
+			classify = func(e ast.Expr, depth int) string {
+				if depth > 3 {
+					return "STORED"
+				}
+				switch x := e.(type) {
+				case *ast.ParenExpr:
+					return classify(x.X, depth)
+				case *ast.CallExpr:
+					name := ""
+					switch fn := x.Fun.(type) {
+					case *ast.SelectorExpr:
+						name = fn.Sel.Name
+					case *ast.Ident:
+						name = fn.Name
+					}
+					if name == "Copy" {
+						return "copy"
+					}
+					if strings.HasPrefix(name, "Get") {
+						return "delegated"
+					}
+					if strings.HasPrefix(name, "load") || strings.HasPrefix(name, "Load") || strings.HasPrefix(name, "New") {
+						return "copy" // freshly built from a file / constructor
+					}
+					return "STORED"
+				case *ast.Ident:
+					if x.Name == "nil" {
+						return ""
+					}
+					o := p.Info.Uses[x]
+					ds := defs[o]
+					if len(ds) == 0 {
+						return "STORED"
+					}
+					res := ""
+					for _, dd := range ds {
+						c := classify(dd, depth+1)
+						if c == "STORED" {
+							return "STORED"
+						}
+						if c != "" {
+							res = c
+						}
+					}
+					return res
+				}
+				return "STORED"
+			}
+			named := ""
+			if len(fd.Type.Results.List[0].Names) > 0 {
+				named = fd.Type.Results.List[0].Names[0].Name
+			}
+			ast.Inspect(fd.Body, func(n ast.Node) bool {
+				if _, isLit := n.(*ast.FuncLit); isLit {
+					return false
+				}
+				r, ok := n.(*ast.ReturnStmt)
+				if !ok {
+					return true
+				}
+				var e ast.Expr
+				if len(r.Results) > 0 {
+					e = r.Results[0]
+				} else if named != "" {
+					// naked return: the named result
+					var obj types.Object = p.Info.Defs[fd.Type.Results.List[0].Names[0]]
+					res := ""
+					for _, dd := range defs[obj] {
+						c := classify(dd, 1)
+						if c == "STORED" {
+							res = "STORED"
+							break
+						}
+						if c != "" {
+							res = c
+						}
+					}
+					if res != "" {
+						out = append(out, awfact{file: p.base(r.Pos()), fn: funcLabel(fd), lhs: named, line: p.line(r.Pos()), how: res})
+					}
+					return true
+				}
+				if e == nil {
+					return true
+				}
+				if c := classify(e, 0); c != "" {
+					out = append(out, awfact{file: p.base(r.Pos()), fn: funcLabel(fd), lhs: exprText(e), line: p.line(r.Pos()), how: c})
 				}
 				return true
 			})
